@@ -27,3 +27,18 @@ func goid() int64 {
 }
 
 var _ atomic.Int64
+
+// SpawnShadow creates a node whose id duplicates an existing member's id without
+// replacing that member in the lab's index (hook round counters are shared by id).
+func (l *Lab) SpawnShadow(id uint64, be Backend) (*Member, error) {
+	l.mu.Lock()
+	old := l.members[id]
+	l.mu.Unlock()
+	m, err := l.Spawn(id, be)
+	l.mu.Lock()
+	if old != nil {
+		l.members[id] = old
+	}
+	l.mu.Unlock()
+	return m, err
+}
